@@ -38,7 +38,7 @@ CHECKS.update({
          "the TCP/Unix wrappers and Braid arms run over real kernel sockets, where chunking is the kernel's and no fault can be injected; TLS runs with >=32 KiB pipe capacity (smaller socket buffers deadlock any TLS handshake); an endpoint is not used again after it returned an error",
          "DESIGN.md 5 (C18), 4.D"),
  "C19": ("timersim+poolsim+e2etimeout", "exploration",
-         "deterministic simulation in virtual time: Timeout layer over a scripted inner future (grid enumerated) and over the real pool (deadline landing in every stage of a pooled request), with a follow-up probe; third part (e2etimeout): real client stack (every builder call order, with and without the redirect layer) and real servers, client timeout T, handler delays around T on every hop, one-hop redirects - every request resolves by T",
+         "deterministic simulation in virtual time: Timeout layer over a scripted inner future (grid enumerated) and over the real pool (deadline landing in every stage of a pooled request), with a follow-up probe; third part (e2etimeout): real client stack (every builder call order, with and without the redirect layer) and real servers, client timeout T, handler delays around T on every hop, one-hop redirects - every request resolves by T, and an HTTP/1 connection whose exchange was still in progress at the deadline never carries a later request (the abandoned exchange was dropped, not completed behind the caller's back)",
          "Resolves at issue+d with the timeout error unless the inner future was ready first (tie: either), inner result unchanged, inner future dropped at resolution and never polled again; over the pool: no hand-off after expiry, probe request to the same origin succeeds, and no later request to the origin is still pending once everything outstanding has been resolved (judged before its own deadline hides it).",
          "tokio paused clock trusted; same stubs as the other pool checks",
          "DESIGN.md 5 (C19), 4.A, 4.E"),
@@ -49,11 +49,11 @@ def e2e(engine, cat, tech, text, ref, note=E2E_NOTE):
     return (engine, cat, tech, text, note, ref)
 CHECKS.update({
  "C01": e2e("e2esim", "exploration",
-   "deterministic simulation: real client stack and real servers over SimNet (seeded chunking, Pending, virtual delays, EOF/reset at byte offsets, refused dials), seeded request mixes with cancels, redirects (followed or not, per the model of the redirect layer), caller-supplied User-Agent / Host / te: trailers, every order of the builder calls, server-side per-connection services that insist on tower's readiness contract (poll_ready before call, first answer Pending), make-services and client protocols that are not ready the first time they are asked; per-request identity/digest oracle at handler and client",
-   "Every request carries its id three times (path, header, body pattern); the handler checks what it receives, the client checks status, headers and every body byte of what it gets back, over HTTP/1.1, HTTP/2, TLS+ALPN, pooled reuse, concurrency, upgrades and cancels at every stage. Fault-free runs: every un-cancelled request must succeed; faulty runs: a failure is excused only by a transport fault on a connection of that origin; wrong or truncated data never.",
+   "deterministic simulation: real client stack and real servers over SimNet (seeded chunking, Pending, virtual delays, EOF/reset at byte offsets, refused dials), seeded request mixes with cancels, redirects (followed or not, per the model of the redirect layer), caller-supplied User-Agent / Host / te: trailers, request and response bodies that end with a trailers frame, every order of the builder calls, server-side per-connection services that insist on tower's readiness contract (poll_ready before call, first answer Pending), make-services and client protocols that are not ready the first time they are asked; per-request identity/digest oracle at handler and client",
+   "Every request carries its id three times (path, header, body pattern); the handler checks what it receives, the client checks status, headers, every body byte and the trailers of what it gets back (trailers must arrive over HTTP/2; over HTTP/1 only their content is judged), over HTTP/1.1, HTTP/2, TLS+ALPN, pooled reuse, concurrency, upgrades and cancels at every stage. Fault-free runs: every un-cancelled request must succeed; faulty runs: a failure is excused only by a transport fault on a connection of that origin; wrong or truncated data never.",
    "DESIGN.md 5 (C01), 4.B"),
  "C07": e2e("shutdown", "exploration",
-   "deterministic simulation: graceful-shutdown signal at a seeded virtual instant against 0-4 connections in every stage (plain or behind the TLS acceptor; raw HTTP/1 clients that split heads and pipeline, hyper HTTP/2 clients, silent / TLS-stalled clients; http1-only servers also built through with_http1(); connects queued at the instant of the signal; a silent connection whose request the driver writes in the very step that fires the signal; the serving future consumed or kept alive after completion); history oracle relative to the signal instant; executor wrapper counts connection tasks and parks a task that wakes itself 100 000 times in a row without any stream operation or time passing (reported as a spin)",
+   "deterministic simulation: graceful-shutdown signal at a seeded virtual instant against 0-4 connections in every stage (plain or behind the TLS acceptor; raw HTTP/1 clients that split heads and pipeline, hyper HTTP/2 clients, silent / TLS-stalled clients; http1-only servers also built through with_http1(); connects queued at the instant of the signal; a silent connection whose request the driver writes in the very step that fires the signal; the serving future consumed or kept alive after completion; a busy executor that first polls a connection task 0/1/4/15 virtual ms after it was handed over, so that the signal finds connections that were accepted but have never run); history oracle relative to the signal instant; executor wrapper counts connection tasks and parks a task that wakes itself 100 000 times in a row without any stream operation or time passing (reported as a spin)",
    "Serving future Ok(()) exactly at the signal; nothing connected afterwards is served; every request whose handler had started - or, on a plain HTTP/1 connection open at the signal, whose every byte the server has taken off the connection - completes correctly; every connection closed by the server and its task finished within 1 s (5 s with I/O delays) of its last exchange; idle and still-sniffing connections closed. http1 / http2 / auto.",
    "DESIGN.md 5 (C07), 4.B"),
  "C08": e2e("sniff", "fault_enumeration",
@@ -61,12 +61,12 @@ CHECKS.update({
    "Version seen by the handler is HTTP/2 iff the stream starts with the full preface; the response equals what plain hyper http1 / http2 answers to the same bytes, and the connection never hangs where plain hyper answers or closes; bodies longer than the sniff buffer are verified byte for byte behind the detector.",
    "DESIGN.md 5 (C08), 4.B"),
  "C09": e2e("srvfault", "fault_enumeration",
-   "deterministic simulation with enumerated fault kind x stage (cancelled connect, connect-then-close, garbage, head/body truncated at offsets, client gone mid-response, handler error, TLS garbage / plaintext / ClientHello truncated or stalled at offsets) x {SimNet, hyperdriver duplex} x {plain, TLS, TLS with Server::with_tls_connection_info()} x {auto, http1}, plus seeded fault sequences interleaved with well-behaved clients; second part (realsock): the TCP and Unix acceptors over real loopback / Unix-domain sockets with the order of system calls decided by the harness ({close, reset} x bytes written first x {in the listen backlog, after accept}, garbage, Unix peers bound to ordinary / non-UTF-8 paths), enumerated plus seeded sequences",
+   "deterministic simulation with enumerated fault kind x stage (cancelled connect, connect-then-close, a duplex client that asks for an unusual stream buffer size (1 .. 2^40 bytes), garbage, head/body truncated at offsets, client gone mid-response, handler error, TLS garbage / plaintext / ClientHello truncated or stalled at offsets) x {SimNet, hyperdriver duplex} x {plain, TLS, TLS with Server::with_tls_connection_info()} x {auto, http1}, plus seeded fault sequences interleaved with well-behaved clients; second part (realsock): the TCP and Unix acceptors over real loopback / Unix-domain sockets with the order of system calls decided by the harness ({close, reset} x bytes written first x {in the listen backlog, after accept}, garbage, Unix peers bound to ordinary / non-UTF-8 paths), enumerated plus seeded sequences",
    "After every fault sequence the serving future is still pending, and every well-behaved client on its own connection (bystanders during the faults, a probe afterwards) gets its complete correct response within 30 s of virtual time.",
    "DESIGN.md 5 (C09), 4.B",
    E2E_NOTE + "; the TCP and Unix acceptors run over real kernel sockets (no seam): only the system-call order is controlled there, accept errors such as EMFILE cannot be injected; handler panics out of scope"),
  "C12": e2e("tlsmode", "fault_enumeration",
-   "deterministic simulation with enumerated scheme x host form x certificate x peer behaviour (incl. the genuine TLS server flight truncated at 40 offsets, closing or stalling) through TlsTransport and through the whole client stack (there also with 1-3 more concurrent HTTP/2 requests behind the same connection attempt), transport faults (reset / end-of-stream after 0..3000 bytes, either direction) under the handshake, and TLS configured twice on one transport; raw first bytes captured at the peer, SNI captured by a recording certificate resolver, certificate validity against a simulated wall clock",
+   "deterministic simulation with enumerated scheme x host form x certificate x peer behaviour (host forms include a legal URI host that is no legal TLS server name; incl. the genuine TLS server flight truncated at 40 offsets, closing or stalling) through TlsTransport and through the whole client stack (there also with 1-3 more concurrent HTTP/2 requests behind the same connection attempt), transport faults (reset / end-of-stream after 0..3000 bytes, either direction) under the handshake, and TLS configured twice on one transport; raw first bytes captured at the peer, SNI captured by a recording certificate resolver, certificate validity against a simulated wall clock",
    "https/wss: the peer's first bytes are a TLS handshake record, SNI = URI host (none for IP literals), success iff the certificate is valid for the URI host and the peer completes a genuine handshake; any failure is an Err with exactly one dial and no request reaching a handler; other schemes go out in clear; no host form panics.",
    "DESIGN.md 5 (C12), 4.B"),
  "C13": e2e("wire", "exploration",
